@@ -289,15 +289,25 @@ fn run_generic<M: Matcher>(p: &Prep, m: &M, answers: &[String], ctx: &mut Ctx) {
     ctx.files += 1;
     let file = scratch_file(&ctx.scratch, &format!("c03-{}.bin", ctx.files), input);
     let file_to_remove = file.clone();
-    let strategies: Vec<(Strategy, bool)> = vec![
-        (Strategy::Reader(1), false),
-        (Strategy::Reader(READER_CHUNKS[(h % READER_CHUNKS.len() as u64) as usize]), false),
-        (Strategy::Path(file.clone()), false),
-        (Strategy::Path(file), true),
+    // (third component: a FRESH searcher with a 7-byte roll buffer, so that the buffer rolls and grows inside small
+    // inputs: context carried across refills, `Core::roll`, `last_line_visited` forgotten -- seeded change C03-1-1)
+    let strategies: Vec<(Strategy, bool, bool)> = vec![
+        (Strategy::Reader(1), false, false),
+        (Strategy::Reader(READER_CHUNKS[(h % READER_CHUNKS.len() as u64) as usize]), false, false),
+        (Strategy::Reader(1), false, true),
+        (Strategy::Reader(READER_CHUNKS[((h >> 8) % READER_CHUNKS.len() as u64) as usize]), false, true),
+        (Strategy::Path(file.clone()), false, false),
+        (Strategy::Path(file), true, false),
     ];
-    for (st, mmap) in strategies {
-        let name = format!("{}{}", st.name(), if let Strategy::Path(_) = st { if mmap { "-mmap" } else { "-nommap" } } else { "" });
-        let s = if mmap { &mut ss.mmap } else { &mut ss.plain };
+    for (st, mmap, small) in strategies {
+        let name = format!(
+            "{}{}{}",
+            st.name(),
+            if let Strategy::Path(_) = st { if mmap { "-mmap" } else { "-nommap" } } else { "" },
+            if small { "-small" } else { "" }
+        );
+        let mut fresh_small = cfg.searcher_small();
+        let s = if mmap { &mut ss.mmap } else if small { &mut fresh_small } else { &mut ss.plain };
         let out = run_with(s, m, input, Script::All, &st).0;
         ctx.rep.branch(&format!("strategy:{}", name));
         // the reader strategy vs the Lean model of search_reader (Model/ReadByLine.lean: BOM peek, roll buffer,
@@ -306,11 +316,12 @@ fn run_generic<M: Matcher>(p: &Prep, m: &M, answers: &[String], ctx: &mut Ctx) {
         // (inputs up to 600 bytes: the list-based model is quadratic in the number of 1-byte reads)
         if let (Strategy::Reader(nchunk), MatcherSpec::Lit { .. }, true) = (&st, &case.m, input.len() <= 600) {
             let rm = ctx.drv.ask(&format!(
-                "c03.rbl {} {} {} (script {}) - - (sink all)",
+                "c03.rbl {} {} {} (script {}) {} - (sink all)",
                 cfg.effective().to_sx(),
                 msx,
                 hex(input),
-                vec![nchunk.to_string(); input.len() + 8].join(" ")
+                vec![nchunk.to_string(); input.len() + 8].join(" "),
+                if small { SMALL_CAP.to_string() } else { "-".to_string() }
             ));
             ctx.rep.eval();
             ctx.rep.branch("reader-model:compared");
